@@ -170,6 +170,9 @@ func init() {
 	rt("Symbolic", func(in *Interp, s *State, c *callCtx) (Value, []*State, bool) {
 		return in.ts.BoolC(true), nil, true
 	})
+	rt("Repeat", func(in *Interp, s *State, c *callCtx) (Value, []*State, bool) {
+		return in.ts.Const(64, 1), nil, true
+	})
 	rt("IsFatal", func(in *Interp, s *State, c *callCtx) (Value, []*State, bool) {
 		return in.ts.BoolC(false), nil, true
 	})
@@ -224,6 +227,9 @@ func init() {
 		c.f.ip++
 		return nil, forks, false
 	})
+	// a scheduling decision: explored like any other choice by the engine; a native run draws it at
+	// random instead of reading it from the replay vector (see verifrt.ChooseSchedule)
+	rtIntrinsics["ChooseSchedule"] = rtIntrinsics["Choose"]
 	rt("Param", func(in *Interp, s *State, c *callCtx) (Value, []*State, bool) {
 		name := strArg(c.args[0])
 		v, ok := in.cfg.Params[name]
